@@ -30,7 +30,7 @@ let line_answer cmp vals =
     | Some (ps, Some m) -> "L" ^ String.concat "" (List.map (fun p -> " " ^ pair_str p) ps) ^ " | inf " ^ string_of_z m in
   let spec =
     if List.length vals > spec_max_len then "S SKIPPED" else
-    match line_oracle lt Z0 vals with
+    match line_oracle lt vals with
     | None -> "S CERTIFICATE-FAILED"
     | Some (fin, ess) ->
       "S" ^ String.concat "" (List.map (fun p -> " " ^ pair_str p) fin) ^ " | ess" ^
